@@ -5,7 +5,7 @@ import numpy as np
 import z3
 
 from symx.arr import NPProxy, SymArray, fork_where, fresh
-from symx.core import SC, SV, Explorer, ShimGap, concretize, differs, lift, sqof, toc
+from symx.core import SC, SV, Explorer, ShimGap, concretize, differs, differs_nan, lift, sqof, toc
 from symx.harness import Tally, to_json
 from symx.twin import World
 
@@ -148,13 +148,17 @@ def run_time(cfg, tier):
         for j in range(n):
             f1, f2, x1, x2 = lift(fn1[j]), lift(fn2[j]), lift(xi1[j]), lift(xi2[j])
             # non-negative magnitudes: equal iff their squares are equal
-            bad.append(z3.Or(differs(sqof(f2), sqof(f1) * k * k), f1.nan != f2.nan))
-            bad.append(z3.Or(differs(sqof(x2), sqof(x1)), x1.nan != x2.nan))
+            # blanked (NaN) poles: blanked in both runs counts as equal, the values are compared only where both are present
+            def both(a, b, d):
+                return z3.Or(a.nan != b.nan, z3.And(z3.Not(a.nan), z3.Not(b.nan), d))
+            val = lambda x: SV(x.v, d=x.d, dp=x.dp, sq=x.sq, nn=x.nn)      # noqa: E731  (the value without its NaN flag)
+            bad.append(both(f1, f2, differs(sqof(val(f2)), sqof(val(f1)) * k * k)))
+            bad.append(both(x1, x2, differs(sqof(val(x2)), sqof(val(x1)))))
             l1, l2 = toc(lam1[j]), toc(lam2[j])
-            bad.append(z3.And(z3.Not(l1.nan), l1.re * l2.re * (1 if l1.d is None else 1) < 0))     # same sign of the real part
-            bad.append(z3.Or(differs(l2.real, l1.real * k), differs(l2.imag, l1.imag * k), l1.nan != l2.nan))
+            bad.append(z3.And(z3.Not(l1.nan), z3.Not(l2.nan), l1.re * l2.re * (1 if l1.d is None else 1) < 0))     # same sign of the real part
+            bad.append(z3.Or(l1.nan != l2.nan, z3.And(z3.Not(l1.nan), differs_nan(l2, SC(l1.re, l1.im, l2.nan, d=l1.d, dp=l1.dp) * k))))
             for c in range(nch):
-                bad.append(differs(phi2[j, c], phi1[j, c]))
+                bad.append(differs_nan(phi2[j, c], phi1[j, c]))
         decide_each(tally, e, bad, lambda m: cex_time(cfg, None), f"{cfg['fn']} {cfg.get('method', '')} dt vs dt/k")
     return tally.result(ex)
 
